@@ -58,7 +58,27 @@ func progCheck(t *testing.T, cfg progCheckCfg) {
 			// the same evaluator runs again (and again): the model goes on
 			// from the variables the previous run left
 			c.PrepareTwice = rapid.Bool().Draw(rt, "preparetwice")
-			for k := rapid.IntRange(1, 2).Draw(rt, "moreruns"); k > 0; k-- {
+			c.SameAddress = rapid.Bool().Draw(rt, "sameaddress")
+			newObjects := rapid.Bool().Draw(rt, "newobjects")
+			for k := rapid.IntRange(1, 3).Draw(rt, "moreruns"); k > 0; k-- {
+				if newObjects && len(c.Obj.Fields) > 0 {
+					// the next record: other values in (some of) the fields
+					var fs []eng.Field
+					for _, f := range c.Obj.Fields {
+						nf := f
+						if rapid.Bool().Draw(rt, "changefield") {
+							nf.V = redrawField(rt, f.Name, f.V)
+						}
+						fs = append(fs, nf)
+						m.Fields[nf.Name] = nf.V
+					}
+					if c.Obj.Mode != "map" && !(&eng.ObjSpec{Mode: c.Obj.Mode, Fields: fs}).StructOK() {
+						break
+					}
+					c.LaterFields = append(c.LaterFields, fs)
+				} else {
+					c.LaterFields = append(c.LaterFields, nil)
+				}
 				m.Trace = nil
 				m.Steps = 0
 				m.Quirk = false
@@ -136,4 +156,24 @@ func TestC06(t *testing.T) {
 		},
 		nontrivial: func(m *lang.Machine, c *Case) bool { return m.Stats.ShadowCalls >= 1 },
 	})
+}
+
+// redrawField draws another value for an input field of a generated program;
+// the name's first letter says what the program uses the field for.
+func redrawField(rt *rapid.T, name string, old lang.Value) lang.Value {
+	var v lang.Value
+	switch name[0] {
+	case 'A':
+		v = gen.ArrayValue(rt, "newarr", gen.ValueOpts{FieldSafe: true})
+	case 'H':
+		v = gen.HashValue(rt, "newhash", gen.ValueOpts{Depth: 1, FieldSafe: true})
+	case 'C':
+		v = gen.Value(rt, "newcond", gen.ValueOpts{Depth: 1, FieldSafe: true})
+	default:
+		v = gen.Scalar(rt, "newscalar", old.K)
+	}
+	if !eng.FieldOK(v, false) {
+		return old
+	}
+	return v
 }
